@@ -542,7 +542,7 @@ def build(tier):
             'TUNING RESULT shared by the (trial, fold) tasks of ml::tune: result_t::store(trial, fold, ..) writes only cell (trial, fold) of m_values and index trial * folds + fold of m_extras (ghost cell / ghost index; the index arithmetic is uninterpreted, injectivity of (trial, fold) -> index is C13); closest_trial / extra / log_path const write nothing; the task lambda writes the result only through store at its own slot (old_trials + index / folds, index % folds), and the only m_extras slot it READS is (closest_trial, fold) with closest_trial < old_trials (a completed batch) or its own slot -- so no task reads a slot another running task writes',
             'FITTED WEAK LEARNERS: the per-sample predict operators of stump / affine / hinge (both sides) / table and dtree_wlearner_t::do_predict const write only the caller\'s outputs view, nothing of the learner',
             'WEAK LEARNER FITTING (runs on a per-task clone; its select_iterator_t::loop chunk tasks share the local vector `caches`): the chunk tasks of stump / affine / hinge do_fit and of the four table learners (dense, kbest, ksplit, dstep; sclass and mclass loops) write only caches[tnum], nothing of the learner; gradients and samples are only read',
-            'GENERATOR STACK (every generator a dataset owns is shared by all tasks): the classes of the generator_t hierarchy, their const / static member functions with a body and every lambda written inside one are ENUMERATED FROM THE AST on every run (specs/C18/generators.py: src/generator.cpp + src/generator/*.cpp; currently 20 classes -- generator_t, base_elemwise / base_pairwise, elemwise_generator_t<gradient | sclass / mclass / scalar / struct identity>, pairwise_generator_t<product>, their computers and input bases -- 100 const functions in 369 instantiations); each is put under a GENERATED frame contract: nothing of *this (struct layout flattened from the class definitions), nothing of the datasource it points to, no global and no function-local static -- INCLUDING the dynamic initialisation of one (`static const auto kernel = make_kernel3x3(m_type)`) -- is written; assigns = parameters handed by non-const reference (+ for a closure run synchronously inside the call: its by-reference captures of non-const locals, e.g. `column` of flatten).  Member calls on a generator through a const access path are reads (the callee is in the enumerated set), through a non-const path writes; an unmapped call on a modelled object is exit 2, so the induction over the call tree is closed.  QUICK tier: one family representative each (gradient: process + closure, do_select(struct) + closure, flatten + closure, select_struct<>, flatten<>; pairwise product: the same six; generator_t: iterate + closure, select, should_drop) = 20 targets; THOROUGH tier: every (class, source location) = 137 targets (one instantiation per member template / generic closure: the other instantiations differ only in erased scalar types)',
+            'GENERATOR STACK (every generator a dataset owns is shared by all tasks): the classes of the generator_t hierarchy, their const / static member functions with a body and every lambda written inside one are ENUMERATED FROM THE AST on every run (specs/C18/generators.py: src/generator.cpp + src/generator/*.cpp; currently 20 classes -- generator_t, base_elemwise / base_pairwise, elemwise_generator_t<gradient | sclass / mclass / scalar / struct identity>, pairwise_generator_t<product>, their computers and input bases -- 100 const functions in 369 instantiations); each is put under a GENERATED frame contract: nothing of *this (struct layout flattened from the class definitions), nothing of the datasource it points to, no global and no function-local static -- INCLUDING the dynamic initialisation of one (`static const auto kernel = make_kernel3x3(m_type)`) -- is written; assigns = parameters handed by non-const reference (+ for a closure run synchronously inside the call: its by-reference captures of non-const locals, e.g. `column` of flatten).  Member calls on a generator through a const access path are reads (the callee is in the enumerated set), through a non-const path writes; an unmapped call on a modelled object is exit 2, so the induction over the call tree is closed.  QUICK tier: one family representative each (gradient: process + closure, do_select(struct) + closure, flatten + closure, select_struct<>, flatten<>; pairwise product: the same six; generator_t: iterate + closure, select, should_drop) = 20 targets; THOROUGH tier: every (class, source location) = 135 targets (all extract and prove; `--tier thorough --only gen_` 96 s on a loaded machine) (one instantiation per member template / generic closure: the other instantiations differ only in erased scalar types)',
             'FITTED MODELS: learner_t::predict (both overloads) const, learner_t::evaluate const, linear_t::do_predict const, gboost_model_t::do_predict const write nothing of the model (layout from the class definitions, bases flattened); the CHUNK TASKS evaluate / linear do_predict hand to iterator.loop (run by the workers of the dataset pool) are under the "concurrent writers write disjoint slots" contract GENERATED FROM THE CAPTURE LIST of the current source (specs/C18/learners.py): a by-reference capture may be written only at element nv_g (ghost, any) with begin <= nv_g < end of the task\'s own tensor_range_t parameter (`<capture>.slice(range)`, `<capture>.tensor(k).slice(range)`); any other possibly-mutating mention of a by-reference capture (assignment, resize, a slice of another range, a non-const call) is an unconditional write and is refuted; const captures and views of const data get no assigns entry at all; the enclosing function calls the extracted task through a stub generated from the same capture list (hooks.lambda_stub_hook), so a newly captured variable is decided',
             'LEMMA ("bit-identical to the same call executed alone", reduced to the frames above; not a separate proof): let f be one of the const functions above, called on a shared object S with its own arguments A.  By the frame of f (and of everything else the library runs concurrently on S: the targets of this spec), no concurrently running call writes S or A\'s inputs; the callees f reaches are the same sequential code; therefore every read f performs returns the value it would return if f ran alone, and f -- sequential, deterministic C++ without reads of clocks, random devices or addresses -- computes the same outputs bit for bit.  Assumes: (a) the frame proofs cover every function that runs concurrently on S (they cover the library\'s own sharing listed here, not arbitrary user code); (b) the erased callees write only what they are handed (assumption list); (c) the disjointly written slots really are used by one running task at a time (C17, monitor semantics); (d) no data-dependent non-determinism inside f (uninitialised reads, iteration over pointer-keyed containers): not checked',
         ],
@@ -550,7 +550,7 @@ def build(tier):
             'interleaving semantics itself: the pool\'s mutex / condition-variable protocol, that two tasks running at the same time have different tnum, that map() returns only after every task finished (C17 proves the sequential protocol under monitor semantics; the schedule quantifier stays open)',
             'schedule independence of the REDUCTION: sum_reduce adds the per-thread accumulators in index order, but which samples went into which accumulator depends on the schedule: floating-point re-association (the property\'s 1e-5 clause) is not decided',
             'the remaining solver bodies (gradient sampling x4, rqb, fpba1 / fpba2, the penalty / augmented-Lagrangian wrappers), lsearch0 / lsearchk implementations (they run on the per-call clones), program::solver_t (NOT added in this round: the specs/C02 / C03 / C07 / C04 extraction tables were not re-used for frame targets); dataset_t::targets / select(target) (generic visitor lambdas, not extractable), datasource_t, scalar_stats_t::scale, splitter_t::split and tuner_t::optimize (run on the calling thread, before / around the parallel section), the sequential parts of wlearner fit (run on per-task clones), cache_flatten / cache_targets (non-const, run before sharing), linear::evaluate / gboost::evaluate free functions (src/linear/util.cpp, src/gboost/util.cpp: rows of caller-local tensors)',
-            'generator stack: the other instantiations of each member template / generic closure (quick AND thorough tier verify one instantiation per source location; they differ in the scalar type of the erased sample iterator only -- not checked mechanically); the non-const members (fit, do_fit, drop / undrop, shuffle / unshuffle, allocate: outside the const interface, run before sharing); generator_t::all() (init-once factory singleton: the lint); datasource_t::visit_inputs / loop_samples / the sample iterators (erased higher-order callees: assumed to call only the closure they are handed); user-defined generators',
+            'generator stack: the other instantiations of each member template / generic closure (quick AND thorough tier verify one instantiation per source location; they differ in the scalar type of the erased sample iterator only -- not checked mechanically); the non-const members (fit, do_fit, drop / undrop, shuffle / unshuffle, allocate: outside the const interface, run before sharing); generator_t::all() (init-once factory singleton: the lint) and base_pairwise_generator_t::make_pairwise (static helper of the non-const fit): skipped by name in generators.SKIP; datasource_t::visit_inputs / loop_samples / the sample iterators (erased higher-order callees: assumed to call only the closure they are handed); user-defined generators',
             'loggers: every logger call is dropped from the extracted text (per-task file loggers are made inside the task; what a shared std::ostream does under concurrent writes is outside the model)',
             'user code: function objects, callbacks and custom tuners / generators supplied by a caller',
             'determinism clause (d) of the lemma; ThreadSanitizer-style dynamic evidence',
